@@ -10,6 +10,7 @@ for d in "$@"; do
   if [ -n "$ov" ]; then chk="${ov%% *}"; tier="${ov##* }"; fi
   # "quick+env": quick exploration plus the environment passes (python -O, ambient decimal context) that the thorough
   # tier always runs - used for seeds that only show in such an environment, to keep the regression run short
+  if [ "$chk" = "-" ]; then echo "$d | NOT-COVERED (documented) | ${ov#- }"; continue; fi
   envp=""; if [ "$tier" = "quick+env" ]; then envp=1; tier=quick; fi
   out="$(VERIF_ENV_PASSES=$envp MUT_LINES=3 tools/mutest.sh "seeded/$d/patch.diff" "$chk" "$tier" 2>&1)"
   verdict="$(echo "$out" | grep -E "^(CAUGHT|MISSED|PATCH-FAILED|FAULT)" | head -1)"
